@@ -168,6 +168,8 @@ func labelToAction(d *Driver, sf ScheduleFile, key, lab string) (Action, bool) {
 		act = Action{Op: "Cmd", Key: key, V: "canary-pause"}
 	case "CmdUnpause":
 		act = Action{Op: "Cmd", Key: key, V: "canary-unpause"}
+	case "CmdFail":
+		act = Action{Op: "Cmd", Key: key, V: "canary-fail"}
 	default:
 		return act, false
 	}
